@@ -81,7 +81,8 @@ Fixpoint cstr (s : bytes) : bytes :=
   match s with [] => [] | c :: r => if ceq c "000" then [] else c :: cstr r end.
 
 (* ------------------------------------------------------------------------------------------------
-   has_unescaped_format_specifiers (output_manager.cpp:989).  [prev_bs]: str[i-1] == '\\'. *)
+   has_unescaped_format_specifiers (output_manager.cpp:989).  [odd_bs]: the run of backslashes directly
+   before the current position has odd length (fix 475de81: only then is a '%' escaped). *)
 Definition fmt_after (rest : bytes) : bool :=        (* rest = text after the skipped width digits *)
   match rest with
   | [] => false
@@ -95,13 +96,14 @@ Definition fmt_after (rest : bytes) : bool :=        (* rest = text after the sk
       else false
   end.
 
-Fixpoint has_fmt_go (prev_bs : bool) (s : bytes) : bool :=
+Fixpoint has_fmt_go (odd_bs : bool) (s : bytes) : bool :=
   match s with
   | [] => false
   | c :: tl =>
-      if ceq c "%" && negb prev_bs then
-        if fmt_after (snd (span is_digit tl)) then true else has_fmt_go false tl
-      else has_fmt_go (ceq c "\") tl
+      if ceq c "%" then
+        if odd_bs then has_fmt_go false tl
+        else if fmt_after (snd (span is_digit tl)) then true else has_fmt_go false tl
+      else has_fmt_go (if ceq c "\" then negb odd_bs else false) tl
   end.
 Definition has_fmt (s : bytes) : bool := has_fmt_go false s.
 
@@ -193,7 +195,10 @@ Fixpoint render_go (fuel : nat) (f : bytes) (args : list farg) : option (bytes *
     | c :: tl =>
       if ceq c "\" then
         match tl with
-        | c2 :: r => if ceq c2 "%" then ocons "%" (render_go fu r args) else ocons c (render_go fu tl args)
+        | c2 :: r =>
+            if ceq c2 "\" then ocons c (ocons c2 (render_go fu r args))    (* an escaped backslash hides nothing (475de81) *)
+            else if ceq c2 "%" then ocons "%" (render_go fu r args)
+            else ocons c (render_go fu tl args)
         | [] => ocons c (render_go fu tl args)
         end
       else if negb (ceq c "%") then ocons c (render_go fu tl args)
@@ -426,11 +431,19 @@ Fixpoint find_fmt (l : list arg) : option (list arg * bytes * list arg) :=
       end
   end.
 
-(* for (j...) { if (j > 0) write_char(' '); print_value(arg[j]); } *)
+(* the print_argument lambda of print_multiple (fix 033c981): a plain string literal is printed with its
+   escapes processed, exactly as when it is the only argument; everything else goes to print_value *)
+Definition print_argument (e : env) (a : arg) : res :=
+  match a with
+  | AQuoted s => if has_interpolation s then print_value e a else inl (cstr (process_escape s))
+  | _ => print_value e a
+  end.
+
+(* for (j...) { if (j > 0) write_char(' '); print_argument(arg[j]); } *)
 Fixpoint join_values (e : env) (first : bool) (l : list arg) : res :=
   match l with
   | [] => inl []
-  | a :: r => rbind (print_value e a) (fun v =>
+  | a :: r => rbind (print_argument e a) (fun v =>
               rbind (join_values e false r) (fun o =>
               inl ((if first then [] else [" "]) ++ v ++ o)))
   end.
@@ -438,11 +451,7 @@ Fixpoint join_values (e : env) (first : bool) (l : list arg) : res :=
 Definition print_multiple (e : env) (args : list arg) : res :=
   match args with
   | [] => inl []
-  | [a] =>
-      match a with
-      | AQuoted s => if has_interpolation s then print_value e a else inl (cstr (process_escape s))
-      | _ => print_value e a
-      end
+  | [a] => print_argument e a        (* the single-argument special case does the same thing *)
   | _ =>
       match find_fmt args with
       | Some (pre, f, post) =>
